@@ -247,6 +247,7 @@ type CmpOptions struct {
 	Corrupt  bool     // negative control: corrupt every expected result first; mismatches are counted, not reported
 	ZeroCost bool     // report completed instructions whose reference cost (confirmed by the code) is < 1
 	ArgClass bool     // append the magnitude class of the largest argument to signatures
+	Twice    bool     // verify every context twice (same caller buffers); both runs must equal the reference
 }
 
 // argClass: structural class of the case's arguments (for signatures): does an argument, read as a
@@ -292,7 +293,7 @@ func Cmp(dir string, tlcOuts []string, opt CmpOptions) {
 	for _, c := range cs {
 		byID[c.ID] = c
 	}
-	var ncase, nsteps, nskipped, nmis, nbuf, ncorrupt, ndetected, nzero int
+	var ncase, nsteps, nskipped, nmis, nbuf, ncorrupt, ndetected, nzero, nsecond int
 	distinct := map[string]bool{}
 	fams := map[string]int{}
 	opsSeen := map[int]int{}
@@ -348,9 +349,28 @@ func Cmp(dir string, tlcOuts []string, opt CmpOptions) {
 		}
 		agreed := true
 		for _, lay := range opt.Layouts {
-			o, er := Run(c, lay)
+			var o, o2 *Obs
+			var er error
+			if opt.Twice {
+				o, o2, er = RunTwice(c, lay)
+			} else {
+				o, er = Run(c, lay)
+			}
 			if er != nil {
 				return er
+			}
+			if o2 != nil && !o2.Hang {
+				nsecond++
+				if m2 := Compare(c, e, o2); m2 != nil {
+					agreed = false
+					nmis++
+					report(fmt.Sprintf("%s:%s:%s:second-run", opt.Prefix, m2.Op, m2.Kind), fmt.Sprintf(
+						"[%s buffers] program %x args %s state %s limit %d: verifying the same context a second time gives a different execution: %s",
+						lay, []byte(c.Prog), argsHex(c.Args), argsHex(c.State), c.Limit, m2.Desc), replay(c, e, o2, lay))
+				}
+				if o.BufDiff == "" && o2.BufDiff != "" {
+					o.BufDiff, o.BufAfter = o2.BufDiff+" (during the second verification)", o2.BufAfter
+				}
 			}
 			if o.Hang {
 				vh.Violation("hang:"+lastName(o), fmt.Sprintf("vm.Verify did not return within 60s on program %x limit %d", []byte(c.Prog), c.Limit), replay(c, e, o, lay))
@@ -392,8 +412,8 @@ func Cmp(dir string, tlcOuts []string, opt CmpOptions) {
 			if o.BufDiff != "" {
 				nbuf++
 				sig := fmt.Sprintf("%s:%s:callerbuf", opt.Prefix, o.BufAfter)
-				report(sig, fmt.Sprintf("[%s buffers] program %x args %s: running the program changed the caller's %s (first seen after %s)",
-					lay, []byte(c.Prog), argsHex(c.Args), o.BufDiff, o.BufAfter), replay(c, e, o, lay))
+				report(sig, fmt.Sprintf("[%s buffers] program %x args %s state %s: running the program changed the caller's data: %s (first seen after %s)",
+					lay, []byte(c.Prog), argsHex(c.Args), argsHex(c.State), o.BufDiff, o.BufAfter), replay(c, e, o, lay))
 			}
 			if tooMany() {
 				break
@@ -442,7 +462,7 @@ func Cmp(dir string, tlcOuts []string, opt CmpOptions) {
 		"cases": ncase, "steps": nsteps, "unjudged_missing_hash_fact": nskipped, "mismatches": nmis, "buffer_changes": nbuf,
 		"distinct_nontrivial": len(distinct), "families": fams, "opcodes_started": ops, "opcodes_completed": done,
 		"result_classes": classes, "control_corrupted": ncorrupt, "control_detected": ndetected, "zero_cost": nzero,
-		"layouts": strings.Join(opt.Layouts, ","),
+		"layouts": strings.Join(opt.Layouts, ","), "second_verifications": nsecond,
 	})
 }
 
